@@ -269,12 +269,21 @@ func (d *OrderedDaemon) Start() {
 func (d *OrderedDaemon) Run() {
 	d.Start()
 
-	// wait until all wait groups for all shutdown orders are finished
-	for _, wg := range d.waitGroupsForAllShutdownOrders() {
-		if wg == nil {
-			continue
+	// wait until all wait groups for all shutdown orders are finished.
+	// background workers can be added while the daemon is running (also with new shutdown orders,
+	// or with an order whose wait group was already awaited), so this has to be repeated
+	// until no background worker is running anymore.
+	for {
+		for _, wg := range d.waitGroupsForAllShutdownOrders() {
+			if wg == nil {
+				continue
+			}
+			wg.Wait()
 		}
-		wg.Wait()
+
+		if len(d.GetRunningBackgroundWorkers()) == 0 {
+			return
+		}
 	}
 }
 
